@@ -359,6 +359,23 @@ Family const &container_family()
       cx.end();
       cx.result(res, cat_vec(iota(n), iota(n == 0 ? 2 : n - 1, 10)));
     }));
+    // the same with an ASSOCIATIVE target (distinct keys, so every element is kept): elements of an
+    // rvalue map are moved into the result, not copied
+    r.push_back(entry2("container::join (map)", seq, any_cat{}, any_cat{}, [](Ctx &cx, int shape, auto c1, auto c2) {
+      using C1 = decltype(c1);
+      using C2 = decltype(c2);
+      int const n = seq_n(shape), nb = n == 0 ? 2 : n - 1;
+      std::map<int, tracked> a, b;
+      for (int i = 0; i < n; ++i) a.emplace(i, tracked(i));
+      for (int i = 0; i < nb; ++i) b.emplace(100 + i, tracked(10 + i));
+      cx.arg<C1>(a, "first");
+      cx.arg<C2>(b, "second");
+      cx.key_fn = "container::join";
+      cx.begin();
+      std::map<int, tracked> res = fcppt::container::join(pass<C1>(a), pass<C2>(b));
+      cx.end();
+      cx.result(res, cat_vec(iota(n), iota(nb, 10)));
+    }));
     r.push_back(entry3("container::join(3)", 3, any_cat{}, any_cat{}, any_cat{}, [](Ctx &cx, int shape, auto c1, auto c2, auto c3) {
       using C1 = decltype(c1);
       using C2 = decltype(c2);
